@@ -5,12 +5,13 @@ O1 == 0 + (NSigGood)
 O2 == O1 + (NSigBad)
 O3 == O2 + (NSignFixed+60)
 O4 == O3 + NSigMut
-Count == O4
+Count == O4 + NSigEveryChar
 ItemAt(g) ==
   IF g <= O1 THEN SigGoodAt(g - 0)
   ELSE IF g <= O2 THEN SigBadAt(g - O1)
   ELSE IF g <= O3 THEN SignAt(g - O2)
-  ELSE SigMutAt(g - O3)
+  ELSE IF g <= O4 THEN SigMutAt(g - O3)
+  ELSE SigEveryCharAt(g - O4)
 VARIABLE n
 INSTANCE GenBase
 =============================================================================
